@@ -63,6 +63,7 @@ func (c *hconn) SetWriteDeadline(t time.Time) error { return nil }
 func (c *hconn) Close() error {
 	c.e.mu.Lock()
 	gate := c.gate
+	c.e.closelog = append(c.e.closelog, c.id) // every call, in call order
 	c.e.mu.Unlock()
 	if gate != nil {
 		c.once.Do(func() { close(c.entered) })
@@ -70,6 +71,14 @@ func (c *hconn) Close() error {
 	}
 	c.e.live.Add(-1)
 	return nil
+}
+
+// connID is the id of a harness conn; -1 for anything else (a nil conn of a recycled clientConn, ...)
+func connID(c net.Conn) int {
+	if h, ok := c.(*hconn); ok && h != nil {
+		return h.id
+	}
+	return -1
 }
 
 type dialRes struct {
@@ -106,31 +115,40 @@ type manual struct {
 	tick0    int
 }
 
+// a CloseIdleConnections call running in its own goroutine while Close() of the conns that were idle blocks
+type ciState struct {
+	gated []*hconn      // the conns that were idle when it was called, in slice order
+	cur   *hconn        // the one whose Close() it is inside now
+	done  chan struct{} // CloseIdleConnections returned
+}
+
 type opRec struct {
 	coq  string
 	name string
 }
 
 type env struct {
-	d       desc
-	hc      *fasthttp.HostClient
-	mu      sync.Mutex
-	pending []*dialReq
-	nextCid int
-	live    atomic.Int64
-	lent    []*held
-	blocked []*held // CloseConn in progress, Close() blocked
-	threads []*thr
-	wids    map[any]int
-	autoThr map[any]*thr
-	nw      int
-	mans    []*manual
-	ticks   int
-	ops     []opRec
-	obs     []string
-	feats   map[string]bool
-	broken  bool // the watchdog fired: the trace stops here (goroutines of this case may stay blocked)
-	flagged bool // some observation had live+dials > max while a blocked Close was outstanding
+	d        desc
+	hc       *fasthttp.HostClient
+	mu       sync.Mutex
+	pending  []*dialReq
+	nextCid  int
+	live     atomic.Int64
+	lent     []*held
+	blocked  []*held // CloseConn in progress, Close() blocked
+	threads  []*thr
+	wids     map[any]int
+	autoThr  map[any]*thr
+	nw       int
+	mans     []*manual
+	ticks    int
+	ops      []opRec
+	obs      []string
+	feats    map[string]bool
+	closelog []int    // ids of conns whose Close() was called, in call order (under mu)
+	ci       *ciState // a CloseIdleConnections call in progress (cibegin ... cfin)
+	broken   bool     // the watchdog fired: the trace stops here (goroutines of this case may stay blocked)
+	flagged  bool     // some observation had live+dials > max while a blocked Close was outstanding
 }
 
 func newEnv(d desc) *env {
@@ -230,7 +248,7 @@ func (e *env) quiescent() bool {
 	// (a conn inside a blocking Close still holds its slot: CloseConn closes first, then decConnsCount)
 	// (were the slot freed before Close — the repaired defect — the books balance without them: accepted here so that
 	// the trace goes on and records the surplus connection; prop_ok rejects ConnsCount != open + dialling)
-	base := len(s.Idle) + e.lentCount() + e.npending() + e.manualUndelivered()
+	base := len(s.Idle) + e.lentCount() + e.npending() + e.manualUndelivered() + e.ciOpen()
 	if s.ConnsCount != base+len(e.blocked) && s.ConnsCount != base {
 		return false
 	}
@@ -253,7 +271,7 @@ func viewOf(key any, done bool) string {
 	_ = waiting
 	switch {
 	case c != nil:
-		return fmt.Sprintf("VConn %s", hlib.Z(int64(c.(*hconn).id)))
+		return fmt.Sprintf("VConn %s", hlib.Z(int64(connID(c))))
 	case err != nil:
 		return "VErr"
 	default:
@@ -298,7 +316,10 @@ func (e *env) emit(name, coq string, stuck bool) {
 	s := e.hc.VerifC18Snapshot()
 	var idle, queue, lent, man []string
 	for _, c := range s.Idle {
-		idle = append(idle, hlib.Z(int64(c.(*hconn).id)))
+		idle = append(idle, hlib.Z(int64(connID(c))))
+		if connID(c) < 0 {
+			e.broken = true // the pool holds a conn that is not ours: record it and stop
+		}
 	}
 	for _, k := range s.Wait {
 		wid, ok := e.wids[k]
@@ -323,8 +344,14 @@ func (e *env) emit(name, coq string, stuck bool) {
 	if live+nd > e.effMax() && len(e.blocked) > 0 {
 		e.flagged = true
 	}
-	o := fmt.Sprintf("(mkobs %s %s %s %s %s %s %s %s %s)", hlib.Z(int64(s.ConnsCount)), hlib.List(idle), hlib.List(queue),
-		hlib.Z(int64(nd)), hlib.Z(int64(live)), hlib.List(lent), hlib.List(rets), hlib.List(man), hlib.Bool(stuck))
+	var clog []string
+	e.mu.Lock()
+	for _, id := range e.closelog {
+		clog = append(clog, hlib.Z(int64(id)))
+	}
+	e.mu.Unlock()
+	o := fmt.Sprintf("(mkobs %s %s %s %s %s %s %s %s %s %s)", hlib.Z(int64(s.ConnsCount)), hlib.List(idle), hlib.List(queue),
+		hlib.Z(int64(nd)), hlib.Z(int64(live)), hlib.List(lent), hlib.List(rets), hlib.List(man), hlib.List(clog), hlib.Bool(stuck))
 	e.ops = append(e.ops, opRec{coq: coq, name: name})
 	e.obs = append(e.obs, o)
 	e.feats[name] = true
@@ -344,7 +371,10 @@ func (e *env) spawnAcquire(reqTimeout time.Duration) *thr {
 		if err != nil {
 			t.err = err
 		} else {
-			hcn := cc.Conn().(*hconn)
+			hcn, _ := cc.Conn().(*hconn)
+			if hcn == nil {
+				hcn = &hconn{id: -1, e: e, entered: make(chan struct{})}
+			}
 			t.h = &held{id: hcn.id, conn: hcn, release: func() { e.hc.ReleaseConn(cc) }, closeFn: func() { e.hc.CloseConn(cc) }}
 		}
 		close(t.done)
@@ -511,8 +541,117 @@ func (e *env) opCloseBegin(id int) {
 	e.emit("cbegin", "OCloseBegin "+hlib.Z(int64(id)), !ok)
 }
 
+// conns of a running CloseIdleConnections' copy whose Close() has not returned yet (their slots are still counted)
+func (e *env) ciOpen() int {
+	if e.ci == nil {
+		return 0
+	}
+	n := 0
+	e.mu.Lock()
+	for _, c := range e.ci.gated {
+		closed := false
+		select {
+		case <-c.gate:
+			closed = true
+		default:
+		}
+		if !closed {
+			n++
+		}
+	}
+	e.mu.Unlock()
+	return n
+}
+
+func entered(c *hconn) bool {
+	select {
+	case <-c.entered:
+		return true
+	default:
+		return false
+	}
+}
+
+// wait until CloseIdleConnections is inside Close() of the next conn of its copy, or has returned
+func (e *env) ciAdvance() bool {
+	ci := e.ci
+	ok := waitFor(func() bool {
+		select {
+		case <-ci.done:
+			return true
+		default:
+		}
+		for _, c := range ci.gated {
+			if c != ci.cur && entered(c) && !gateOpen(c) {
+				return true
+			}
+		}
+		return false
+	}, 2*time.Second)
+	ci.cur = nil
+	for _, c := range ci.gated {
+		if entered(c) && !gateOpen(c) {
+			ci.cur = c
+		}
+	}
+	if ci.cur == nil {
+		select {
+		case <-ci.done:
+			e.ci = nil
+		default:
+		}
+	}
+	return ok
+}
+
+func gateOpen(c *hconn) bool {
+	select {
+	case <-c.gate:
+		return true
+	default:
+		return false
+	}
+}
+
+func (e *env) opCloseIdleBegin() {
+	if e.broken || !e.d.Block || e.ci != nil {
+		return
+	}
+	s := e.hc.VerifC18Snapshot()
+	if len(s.Idle) == 0 {
+		return
+	}
+	ci := &ciState{done: make(chan struct{})}
+	e.mu.Lock()
+	for _, c := range s.Idle {
+		h, _ := c.(*hconn)
+		if h == nil {
+			e.mu.Unlock()
+			return
+		}
+		h.gate = make(chan struct{})
+		ci.gated = append(ci.gated, h)
+	}
+	e.mu.Unlock()
+	e.ci = ci
+	go func() {
+		e.hc.CloseIdleConnections()
+		close(ci.done)
+	}()
+	ok := e.ciAdvance()
+	e.emit("cibegin", "OCloseIdleBegin", !ok)
+}
+
 func (e *env) opCloseFin(id int) {
 	if e.broken {
+		return
+	}
+	if e.ci != nil && e.ci.cur != nil && e.ci.cur.id == id {
+		before := e.live.Load()
+		close(e.ci.cur.gate)
+		waitFor(func() bool { return e.live.Load() < before }, 2*time.Second)
+		ok := e.ciAdvance()
+		e.emit("cfin", "OCloseFin "+hlib.Z(int64(id)), !ok)
 		return
 	}
 	for i, h := range e.blocked {
@@ -629,7 +768,10 @@ func (e *env) opMTake(w int) {
 	m.frozen = viewOf(m.v.Key(), true)
 	cc, err := m.v.Conn()
 	if err == nil && cc != nil {
-		hcn := cc.Conn().(*hconn)
+		hcn, _ := cc.Conn().(*hconn)
+		if hcn == nil {
+			hcn = &hconn{id: -1, e: e, entered: make(chan struct{})}
+		}
 		e.lent = append(e.lent, &held{id: hcn.id, conn: hcn, release: func() { e.hc.ReleaseConn(cc) }, closeFn: func() { e.hc.CloseConn(cc) }})
 	}
 	e.emit("mtake", "OMTake "+hlib.Z(int64(w)), false)
@@ -670,6 +812,8 @@ func (e *env) doScript(op string) {
 		e.opCloseFin(n)
 	case "closeidle":
 		e.opCloseIdle()
+	case "cibegin":
+		e.opCloseIdleBegin()
 	case "expire":
 		e.opExpire()
 	case "mdecide":
@@ -715,8 +859,17 @@ func (e *env) randomOp(r *rand.Rand) {
 	for _, h := range e.blocked {
 		add(3, "cfin:"+strconv.Itoa(h.id))
 	}
-	if len(e.hc.VerifC18Snapshot().Idle) > 0 {
+	if nidle := len(e.hc.VerifC18Snapshot().Idle); nidle > 0 {
 		add(2, "closeidle")
+		if e.d.Block && e.ci == nil && nidle >= 2 {
+			add(6, "cibegin")
+		}
+	}
+	if e.ci != nil && e.ci.cur != nil {
+		add(3, "cfin:"+strconv.Itoa(e.ci.cur.id))
+		for _, h := range e.lent { // releases while CloseIdleConnections is between two of its Close calls
+			add(8, "rel:"+strconv.Itoa(h.id))
+		}
 	}
 	for _, m := range e.mans {
 		if m.done {
@@ -776,6 +929,10 @@ func (e *env) drain() {
 		}
 		for len(e.blocked) > 0 && !e.broken {
 			e.opCloseFin(e.blocked[0].id)
+			progress = true
+		}
+		for e.ci != nil && e.ci.cur != nil && !e.broken {
+			e.opCloseFin(e.ci.cur.id)
 			progress = true
 		}
 		if len(e.hc.VerifC18Snapshot().Idle) > 0 {
@@ -1002,6 +1159,20 @@ func corpus() []desc {
 		add(2, true, fifo, "acq", "acq", "ok:0", "ok:0", "mdecide", "rel:0", "rel:1", "menq:0", "closeidle", "ok:0", "mtake:0")
 		add(3, false, fifo, "acq", "acq", "ok:0", "ok:0", "rel:1", "rel:0", "closeidle", "acq")
 	}
+	// CloseIdleConnections works on a private copy of the idle list: conns released (or acquired, dialled, closed) while it
+	// is between two of its Close calls must not be touched, and every conn of the copy is closed exactly once
+	for _, fifo := range []bool{false, true} {
+		for _, wait := range []bool{false, true} {
+			c = append(c, desc{Kind: "trace", Max: 4, Wait: wait, Fifo: fifo, Block: true, Script: []string{"acq", "acq", "acq", "acq", "ok:0", "ok:0", "ok:0", "ok:0",
+				"rel:0", "rel:1", "cibegin", "rel:2", "rel:3", "cfin:0", "cfin:1", "acq", "acq", "rel:2", "rel:3", "closeidle"}})
+			c = append(c, desc{Kind: "trace", Max: 5, Wait: wait, Fifo: fifo, Block: true, Script: []string{"acq", "acq", "acq", "acq", "acq", "ok:0", "ok:0", "ok:0", "ok:0", "ok:0",
+				"rel:0", "rel:1", "rel:2", "cibegin", "rel:3", "cfin:0", "rel:4", "acq", "cfin:1", "acq", "cfin:2", "acq", "ok:0"}})
+			c = append(c, desc{Kind: "trace", Max: 3, Wait: wait, Fifo: fifo, Block: true, Script: []string{"acq", "acq", "acq", "ok:0", "ok:0", "ok:0",
+				"rel:1", "rel:0", "cibegin", "rel:2", "acq", "cfin:1", "acq", "ok:0", "close:2", "cfin:0"}})
+		}
+	}
+	c = append(c, desc{Kind: "trace", Max: 4, Wait: true, Block: true, Script: []string{"acq", "acq", "acq", "acq", "ok:0", "ok:0", "ok:0", "ok:0",
+		"rel:0", "rel:1", "cibegin", "mdecide", "menq:0", "rel:2", "cfin:0", "ok:0", "rel:3", "cfin:1", "mtake:0"}})
 	// real connsCleaner
 	c = append(c, desc{Kind: "trace", Max: 2, Clean: true, Script: []string{"acq", "acq", "ok:0", "ok:0", "rel:0", "rel:1", "expire", "acq"}})
 	c = append(c, desc{Kind: "trace", Max: 2, Wait: true, Clean: true, Script: []string{"acq", "ok:0", "rel:0", "acq", "rel:0", "expire"}})
@@ -1020,8 +1191,27 @@ func gen(r *rand.Rand, i int) desc {
 		return desc{Kind: "stress", Max: 1 + r.Intn(3), Wait: r.Intn(2) == 0, Fifo: r.Intn(2) == 0, Seed: r.Int63n(1 << 30), G: 4 + r.Intn(8), Iters: 100, FailP: r.Intn(40)}
 	}
 	d := desc{Kind: "trace", Max: 1 + r.Intn(3), Wait: r.Intn(4) != 0, Fifo: r.Intn(2) == 0, Seed: r.Int63n(1 << 40), Steps: 8 + r.Intn(28)}
-	if r.Intn(12) == 0 {
+	if r.Intn(6) == 0 {
+		// blocking Close: CloseConn / CloseIdleConnections interleaved with other operations; needs several
+		// idle and several lent conns at once
 		d.Block = true
+		d.Max = 2 + r.Intn(4)
+		d.Steps = 20 + r.Intn(30)
+		if r.Intn(3) != 0 && d.Max >= 3 {
+			// start inside a CloseIdleConnections call: j conns idle (its copy), the others lent
+			for k := 0; k < d.Max; k++ {
+				d.Script = append(d.Script, "acq")
+			}
+			for k := 0; k < d.Max; k++ {
+				d.Script = append(d.Script, "ok:0")
+			}
+			j := 2 + r.Intn(d.Max-2)
+			for _, k := range r.Perm(d.Max)[:j] {
+				d.Script = append(d.Script, "rel:"+strconv.Itoa(k))
+			}
+			d.Script = append(d.Script, "cibegin")
+			d.Steps = 10 + r.Intn(20)
+		}
 	}
 	if r.Intn(40) == 0 {
 		d.Max = 0
